@@ -572,3 +572,37 @@ M('c07-step-index-25', ['C07'], Y22 + 'f1040_figure_tax.py', _STEP_OLD, _STEP_NE
   'the table scan is replaced by an index list with one entry per $25 built at import time: the three irregular rows under $25 collapse (seed C07-N)')
 M('c07-step-index-5', ['C07'], Y22 + 'f1040_figure_tax.py', _STEP_OLD, _STEP_NEW % 5, None,
   'the same index list with one entry per $5, the common divisor of all row boundaries: same function', expect='silent')
+
+
+# ------------------------------------------------------------------ round 8 of the seeded changes
+M('k27-getter-regroups', ['C01', 'C13'], S, "        assert self._done_solving\n        return self._unmet_dependencies(self._field_dependencies)\n",
+  "        assert self._done_solving\n        unmet = self._unmet_dependencies(self._field_dependencies)\n        stuck = set(n for ds in unmet.values() for n in ds)\n        return {d: ds for d, ds in unmet.items() if d not in stuck}\n", 'K27',
+  'the getter of the blocked lines keeps only the roots of the blockage: lines blocked behind each other disappear (seed C01-P)')
+M('l5-raw-answer-instead-of-the-flag-line', ['C02'], Y22 + 'f1040_s8812.py', "            if not v['1040.need_schedule_3_part_i']:\n", "            if not i['1040.need_schedule_3_part_i']:\n", 'L5',
+  'the worksheet consults the raw answer instead of the line that also detects foreign tax by itself (seed C02-O)')
+M('k36-default-list-appended', ['C04', 'C05'], S, "        for form_name in form_names:\n            self._add_form(form_name)\n",
+  "        for form_name in form_names:\n            if '.' in form_name:\n                field_names.append(form_name)\n                continue\n            self._add_form(form_name)\n", 'K36',
+  'solve() appends to its field_names parameter, whose default is the literal [] (seed C04-P)')
+M('k32-pass-budget', ['C05', 'C06'], S, "            while len(self._unattempted_fields) > 0:\n                self._attempt_field(self._unattempted_fields.pop())\n",
+  "            passes = getattr(self, '_passes', 0) + 1\n            self._passes = passes\n            if passes > 50:\n                raise RuntimeError('did not settle')\n            while len(self._unattempted_fields) > 0:\n                self._attempt_field(self._unattempted_fields.pop())\n", 'K32',
+  'a cut-off on the number of rounds of the scheduling loop (seed C05-O)')
+M('k20-typed-text-stripped', ['C05', 'C11'], CLI, "            value = input(prompt)\n", "            value = input(prompt).strip()\n", 'K20', 'the typed answer is stripped; the same text in the file is not (seed C05-P)')
+M('r9-gate-line-no-longer-read', ['C09'], Y22 + 'f1040_s1.py', "v['1'] + v['2a'] + sum([v[f'{n}'] for n in range(3,8)]) + v['9']", "v['1'] + v['2a'] + v['3'] + v['4'] + v['5'] + v['7'] + v['9']", 'R9.6',
+  'Schedule 1 line 10 no longer reads line 6, the only place the farm-income gate is evaluated (seed C09-P)')
+M('k11j-raw-text-looked-up', ['C11', 'C13'], IN, "    def value(self, string):\n        string = super().value(string)\n        if len(string.strip()) == 0 and self.allow_empty:\n            return None\n        return self.enum[string]\n",
+  "    def value(self, string):\n        if self.allow_empty and len(string.strip()) == 0:\n            return None\n        return self.enum[string]\n", 'K11j',
+  'EnumInput.value looks the raw text up while valid() accepted the stripped text (seed C13-P)')
+M('k22a-year-only-when-solved', ['C14'], CLI, "    # Attach tax year to solution\n    solution['habutax'] = {\n        'tax_year': args.year,\n        'version': __version__,\n    }\n\n    if successful:\n        print(\"\\nSuccessfully solved!\")\n",
+  "    if successful:\n        print(\"\\nSuccessfully solved!\")\n        solution['habutax'] = {\n            'tax_year': args.year,\n            'version': __version__,\n        }\n", 'K22a',
+  'a partial solution is written without its tax year (seed C14-O)')
+M('k22a-year-with-fallback', ['C14'], CLI, "    tax_year = solution.getint('habutax', 'tax_year')\n", "    tax_year = solution.getint('habutax', 'tax_year', fallback=2021)\n", 'K22a', 'fill-pdfs falls back to a default year (seed C14-O)')
+M('k22b-from_string-scaled-rounding', ['C14'], FI, "        return round(float(string), self._places)\n", "        scale = 10 ** self._places\n        return round(float(string) * scale) / scale\n", 'K22b',
+  'amounts are read back with another rounding scheme than they were stored with (seed C14-P)')
+M('k22b-from_string-local-variable', ['C14'], FI, "        return round(float(string), self._places)\n", "        amount = float(string)\n        return round(amount, self._places)\n", None,
+  'the same rounding through a local variable', expect='silent')
+M('k25b-name-column-cut', ['C17'], CLI, "    format_str =\"{:>{width}} | {:12} | {}\"\n", "    format_str =\"{:>{width}.{width}} | {:12} | {}\"\n", 'K25b', 'the name column of list-forms gets a precision (seed C17-O)')
+M('k23c-choice-tested-in-upper-case', ['C19'], PFD, "        if value not in self._choices:\n", "        if value.upper() not in self._choices:\n", 'K23c', 'the choice test is made on an upper-cased copy (seed C19-P)')
+M('k16-set-joined', ['C03', 'C05'], Y23 + 'f1040_s1.py', "            types = []\n", "            types = set()\n", 'K16', 'descriptions collected in a set and joined in set order (seed C03-P)',
+  more=[(Y23 + 'f1040_s1.py', "                types.append(\"Refund of overpaid mortgage interest\")", "                types.add(\"Refund of overpaid mortgage interest\")"),
+        (Y23 + 'f1040_s1.py', "                types.append(i['other_income_type'])", "                types.add(i['other_income_type'])")])
+M('r17-dotted-input-name', ['C17'], Y23 + 'fnc_d_400_ss.py', "'section_1400z-2_gain'", "'section_1400z.2_gain'", 'R17', 'an input name with a dot: the constructor\'s own assertion refuses it (the form cannot be built)', count=None)
